@@ -30,7 +30,7 @@ var c05PatQ = []string{
 	"*.js", "**/*.js", "src/*", "*/*", "**", "src/**", "**/sub/*", "*.{js,ts}", "s*/*.js", "**/*", "*", "lib/*.ts",
 	"**/g.*", "*.ts", "src/*.js", "**/*.ts", "?.j*", "[a-z].j*", "src/**/*.js", "**/{c,g}.js",
 }
-var c05PatT = append(append([]string{}, c05PatQ...), "*/**", "**/.*", "src/.*", "lib/*", "**/src/*", "*/*/*", "zz.*", "**/*.{js,ts}", "*/sub/**", "[!a]*.js")
+var c05PatT = append(append([]string{}, c05PatQ...), "**/.*", "src/.*", "lib/*", "**/src/*", "*/*/*", "zz.*", "**/*.{js,ts}", "*/sub/**", "[!a]*.js")
 
 type c05case struct {
 	Mask     int      `json:"mask"`
